@@ -364,7 +364,7 @@ def run_case(case, res):
             try:
                 pth = _os.path.join(tmpd, "g.md")
                 t.to_mermaid_flowchart(pth)
-                if open(pth).read() != fp0.getvalue():
+                if open(pth, encoding=None).read() != fp0.getvalue():  # (the library opens this target with the default encoding, too)
                     bad.append("to_mermaid_flowchart(path) differs from the stream output")
                 from pathlib import Path as _P
 
